@@ -130,6 +130,38 @@ def run(ck: Check) -> int:
                                                                    'mid-segment / inside groups), extended groups; paths: every relative string <= 5 over "ab/".')
     ck.search('one-piece-per-segment', s_sepcount)
 
+    def s_escsep(sr):
+        """an escaped separator `\\/` written in the pattern is a separator: the pattern with some `/` spelled `\\/` must accept
+        exactly what the plain pattern accepts (start-of-segment state, MATCHBASE reset, separator runs) — seeded change C02d"""
+        segs = ['a', 'b', '*', '?', '**', '[ab]', 'a*', '*b', '@(a|b)', '!(a)', '.a', 'ab']
+        n = 0
+        for _ in range(400 if quick and not ck.deep() else 6000):
+            k = R.randint(2, 4)
+            parts = [R.choice(segs) for _ in range(k)]
+            plain = '/'.join(parts) + ('/' if R.random() < 0.2 else '')
+            esc = ''
+            for ch in plain:
+                esc += ('\\/' if (ch == '/' and R.random() < 0.6) else ch)
+            if esc == plain:
+                continue
+            fl = gen.random_flags(R, [G.G, G.G, G.X, G.D, G.E, G.E, G.I], 0.4, G.U)
+            try:
+                with common.time_limit(5):
+                    a = G.globfilter(paths, plain, flags=fl)
+                    b = G.globfilter(paths, esc, flags=fl)
+            except common.CallTimeout:
+                continue
+            n += 1
+            sr.evaluations += len(paths)
+            if a != b:
+                d = sorted(set(a) ^ set(b))[:4]
+                ck.report(Failing(f'pattern {esc!r} (escaped separators) differs from {plain!r} on {d!r}',
+                                  {'api': 'glob.globfilter', 'pattern': esc, 'plain': plain, 'path': d[0], 'flags': fl}, d[0] in a, d[0] in b,
+                                  'wcmatch/_wcparse.py:_references (escaped separator)'), None)
+        sr.distinct = n
+        sr.note = s_escsep.__doc__.replace('\n        ', ' ')
+    ck.search('escaped-separator-is-a-separator', s_escsep)
+
     def s_search(sr):
         deep = ck.deep()
         ps = pats if (deep or not quick) else pats[:2000]
